@@ -103,6 +103,72 @@ def _fam():
 
 FAMILIES = _fam()
 
+# one-hole contexts; every ordered pair (c1, c2) gives the family (c1 ∘ c2)^d — kept when tree-sitter accepts it
+CONTEXTS = {
+    "with": ("with a; ", ""),
+    "with-nl": ("with a;\n", ""),
+    "set": ("{ x = ", "; }"),
+    "set-nl": ("{\nx = ", ";\n}"),
+    "rec": ("rec { x = ", "; }"),
+    "attrpath": ("{ a.b = ", "; }"),
+    "list": ("[ ", " ]"),
+    "list-nl": ("[\n", "\n]"),
+    "paren": ("(", ")"),
+    "lambda": ("a: ", ""),
+    "lambda-nl": ("a:\n", ""),
+    "formals": ("{ a }: ", ""),
+    "formal-default": ("{ a ? ", " }: a"),
+    "let-body": ("let a = 1; in ", ""),
+    "let-body-nl": ("let\na = 1;\nin\n", ""),
+    "let-value": ("let a = ", "; in a"),
+    "if-else": ("if c then 1 else ", ""),
+    "if-then": ("if c then ", " else 2"),
+    "if-cond": ("if ", " then 1 else 2"),
+    "assert": ("assert a; ", ""),
+    "assert-nl": ("assert a;\n", ""),
+    "assert-cond": ("assert ", "; x"),
+    "call": ("f (", ")"),
+    "call-list": ("f [ ", " ]"),
+    "call-set": ("f { x = ", "; }"),
+    "interp": ('"${', '}"'),
+    "istr": ("''${", "}''"),
+    "binop-r": ("a + (", ")"),
+    "binop-l": ("(", ") + a"),
+    "binop-r-nl": ("a +\n(", ")"),
+    "update-r": ("a // (", ")"),
+    "update-r-nl": ("a\n// (", ")"),
+    "concat-r": ("a ++ (", ")"),
+    "impl-r-nl": ("a ->\n(", ")"),
+    "select-or": ("a.b or (", ")"),
+    "select-base": ("(", ").b"),
+    "has-attr": ("(", ") ? a"),
+    "inherit-from": ("{ inherit (", ") a; }"),
+    "not": ("!(", ")"),
+    "neg": ("-(", ")"),
+    "comment-own": ("# c\n", ""),
+    "comment-block": ("/* c */ ", ""),
+}
+
+
+def pair_family(c1, c2):
+    p1, s1 = CONTEXTS[c1]
+    p2, s2 = CONTEXTS[c2]
+    return lambda d: (p1 + p2) * d + "x" + (s2 + s1) * d
+
+
+def _pairs():
+    out = {}
+    for c1 in sorted(CONTEXTS):
+        for c2 in sorted(CONTEXTS):
+            f = pair_family(c1, c2)
+            if not cst.parse(f(2)).root.has_error:
+                out[f"pair:{c1}+{c2}"] = f
+    return out
+
+
+PAIR_FAMILIES = _pairs()
+FAMILIES.update(PAIR_FAMILIES)
+
 
 def work_of(text):
     """Deterministic work: number of Python call events in nix_manipulator frames during parse+rebuild."""
@@ -233,7 +299,7 @@ def atheris_campaign(sh, runs, max_time):
 
 
 def plan(tier):
-    return {"shards": 16, "examples": 1200 if tier == "quick" else 30000, "depths": [3, 6] if tier == "quick" else [3, 4, 5, 6], "fuzz_runs": 30000 if tier == "quick" else 3000000, "fuzz_time": 20 if tier == "quick" else 420, "wall_limit": 300 if tier == "quick" else 2400}
+    return {"shards": 16, "examples": 1200 if tier == "quick" else 30000, "depths": [3, 6] if tier == "quick" else [3, 4, 5, 6], "pair_depths": [5] if tier == "quick" else [3, 4, 5, 6], "fuzz_runs": 30000 if tier == "quick" else 3000000, "fuzz_time": 20 if tier == "quick" else 420, "wall_limit": 300 if tier == "quick" else 2400}
 
 
 def run_shard(sh):
@@ -249,9 +315,9 @@ def run_shard(sh):
     for i, name in enumerate(names):
         if i % sh.nshards != sh.index:
             continue
-        for d in sh.params["depths"]:
+        for d in (sh.params["pair_depths"] if name.startswith("pair:") else sh.params["depths"]):
             case = {"kind": "family", "family": name, "d": d}
-            if name in fam_block:
+            if name in fam_block or any(name.startswith("pair:") and fb.startswith("ctx:") and fb[4:] in name[5:].split("+") for fb in fam_block):
                 sh.excluded += 1
                 continue
             fails, detail = family_check(name, d)
